@@ -12,7 +12,7 @@ THEOREMS = ['WV.C01.afb1dOne_zero_eq_dwt', 'WV.C01.afb1dOne_symmetric_eq_dwt', '
             'WV.C03T.reflect_eq_symIdx', 'WV.C03T.symm_pad_1d_eq', 'WV.C03T.symmPad_eq_gather', 'WV.C01M.AFB2D_forward_multi', 'WV.C01M.DWTForward_multi',
             'WV.C01Z.afb1dOne_zero_gen', 'WV.C01Z.afb1dOne_symmetric_gen', 'WV.C01Z.afb1dOne_per_gen', 'WV.C01Z.afb1d_p_gives_coeff_len',
             'WV.C01P.DWTForward_per_eq_wavedec2', 'WV.C02Q.DWT1DForward_per_eq_wavedec_all',
-            'WV.C01R.afb1dOne_reflect_some', 'WV.C01R.DWT1DForward_reflect_some', 'WV.C01R.AFB2D_forward_reflect_some', 'WV.C01R.DWTForward_reflect_some', 'WV.C19Z.rollPy_gen', 'WV.C19Z.prep_mirrors_gen', 'WV.C10Z.module_glue_gen', 'WV.C07W.dwt_zero_local', 'WV.C07W.wavedec_low_agree', 'WV.C07W.wavedec_low_cone', 'WV.C07W.wavedec_band_first', 'WV.C07W.wavedec_band_agree', 'WV.C07X.band_zero_local', 'WV.C07X.dwt2_zero_local']
+            'WV.C01R.afb1dOne_reflect_some', 'WV.C01R.DWT1DForward_reflect_some', 'WV.C01R.AFB2D_forward_reflect_some', 'WV.C01R.DWTForward_reflect_some', 'WV.C19Z.rollPy_gen', 'WV.C19Z.prep_mirrors_gen', 'WV.C10Z.module_glue_gen', 'WV.C07W.dwt_zero_local', 'WV.C07W.wavedec_low_agree', 'WV.C07W.wavedec_low_cone', 'WV.C07W.wavedec_band_first', 'WV.C07W.wavedec_band_agree', 'WV.C07X.band_zero_local', 'WV.C07X.dwt2_zero_local', 'WV.C07X.low_zero_agree', 'WV.C07X.wavedec2_low_agree']
 KF_PER = 'C01-periodization-short'
 
 
